@@ -47,6 +47,15 @@ Theorem C20_b64_decode_invalid_is_err : forall a mode allow_trailing x l,
   exists e, b64_decode_bytes (alphabet_of a) mode allow_trailing l = DErr e.
 Proof. exact b64_invalid_gen. Qed.
 
+(* SOUNDNESS of the decoder used by the filter (indifferent padding, trailing bits rejected): every text
+   it accepts is the canonical unpadded encoding of the bytes it returns, followed only by "=" signs.
+   With the round trip this characterises the accepted texts; in particular a foreign character, a
+   misplaced "=", a length of 1 mod 4 and non-zero trailing bits are all errors. *)
+Theorem C20_b64_decode_sound : forall a l bs,
+  b64_decode_bytes (alphabet_of a) Indifferent false l = DOk bs ->
+  exists k, l = b64_encode_engine (no_pad_engine a) bs ++ repeat 61 k /\ bytes bs.
+Proof. exact b64_decode_sound_engine. Qed.
+
 (* a text of length 1 mod 4 is never accepted *)
 Theorem C20_b64_decode_bad_length_is_err : forall al mode allow_trailing l,
   (length l mod 4 = 1)%nat -> exists e, b64_decode_bytes al mode allow_trailing l = DErr e.
@@ -133,6 +142,7 @@ Print Assumptions C20_json_roundtrip.
 Print Assumptions C20_slug_alphabet.
 Print Assumptions C20_json_object_faithful.
 Print Assumptions C20_b64_decode_invalid_is_err.
+Print Assumptions C20_b64_decode_sound.
 
 (* non-vacuity *)
 Example C20_ex_b64 :
